@@ -421,10 +421,11 @@ type nWire struct {
 }
 
 type nScript struct {
-	w     *nWorld
-	ms    []*nMach
-	steps []string
-	descs []any
+	w      *nWorld
+	ms     []*nMach
+	steps  []string
+	descs  []any
+	forged []int // steps at which a responder completed on a message 1 no initiator machine sent verbatim (F27)
 }
 
 func (s *nScript) body(j int) []byte { return s.ms[j].out[header.Len:] }
@@ -610,8 +611,25 @@ func (s *nScript) init(i int) nObs {
 	return o
 }
 
+// deliverV hands machine i exactly the packet machine j produced
+func (s *nScript) deliverV(i, j int) nObs {
+	return s.deliver(i, s.wGenuine(j), fmt.Sprintf("(Noise_corr.TVerbatim %d%%nat)", j))
+}
+
 func (s *nScript) deliver(i int, wr nWire, tag string) nObs {
 	o := s.ms[i].doDeliver(wr.bytes)
+	if o.hasRes && !s.ms[i].initiator {
+		verbatim := false
+		for j, m := range s.ms {
+			if m.initiator && m.out != nil && bytes.Equal(m.out, wr.bytes) &&
+				(strings.HasPrefix(tag, fmt.Sprintf("(Noise_corr.TVerbatim %d%%nat)", j)) || strings.HasPrefix(tag, fmt.Sprintf("(Noise_corr.TGenuine %d%%nat ", j))) {
+				verbatim = true
+			}
+		}
+		if !verbatim {
+			s.forged = append(s.forged, len(s.steps))
+		}
+	}
 	s.add(fmt.Sprintf("Noise_corr.ADeliver %d%%nat %s", i, wr.lit), o, tag,
 		map[string]any{"op": "deliver", "to": i, "what": wr.desc, "len": len(wr.bytes), "tag": tag, "obs": o.json()})
 	return o
@@ -655,6 +673,11 @@ func (s *nScript) keysLit() (string, [][3]int) {
 }
 
 func (s *nScript) emit(cw *hx.CaseWriter, kind string, nontrivial bool, honest [][2]int) {
+	s.emitAs(cw, "", kind, nontrivial, honest)
+}
+
+// emitAs wraps the case literal in a constructor (C05: C5Strict / C5Literal)
+func (s *nScript) emitAs(cw *hx.CaseWriter, wrap, kind string, nontrivial bool, honest [][2]int) {
 	var specs []string
 	for i, m := range s.ms {
 		specs = append(specs, m.specLit(i))
@@ -674,7 +697,13 @@ func (s *nScript) emit(cw *hx.CaseWriter, kind string, nontrivial bool, honest [
 		}
 		who = append(who, fmt.Sprintf("%s/v%d/%s/cipher%d/alloc%d", m.id.name, m.ver, role, m.cipher, m.alloc))
 	}
-	cw.Add(lit, kind, nontrivial, map[string]any{"curve": s.w.curveN, "machines": who, "steps": s.descs, "keys": raw, "honest": honest})
+	desc := map[string]any{"curve": s.w.curveN, "machines": who, "steps": s.descs, "keys": raw, "honest": honest}
+	if wrap != "" {
+		lit = "(" + wrap + " " + lit + ")"
+		desc["forged_responder_completions"] = s.forged
+		desc["literal_reading"] = wrap == "Noise_corr.C5Literal"
+	}
+	cw.Add(lit, kind, nontrivial, desc)
 }
 
 const nImports = "From NV Require Import lib.Sym model.Noise model.Machine corr.Noise_corr."
@@ -740,32 +769,37 @@ func noiseC07Scenario(c *hx.Ctx, cw *hx.CaseWriter, w *nWorld, cipher uint64, ta
 }
 
 func runNoiseC07(c *hx.Ctx) {
-	cw := c.NewCaseWriter(nImports, "Noise_corr.ccase", "Noise_corr.check_c07", 120)
+	cw := c.NewCaseWriter(nImports, "Noise_corr.ccase", "Noise_corr.check_c07", 100)
 	worlds := []*nWorld{newNoiseWorld(cert.Curve_CURVE25519), newNoiseWorld(cert.Curve_P256)}
 	// 1. every truncation length of each message, both roles, both curves and ciphers.  Truncations that leave the
 	// machine usable are chained (up to 12 per scenario, "any number of rejected messages"); one that marks the
-	// machine failed ends its scenario.  In the reference world (X25519, ChaChaPoly) every length is its own scenario.
+	// machine failed ends its scenario.  In the reference world (X25519, ChaChaPoly) each length around the field
+	// boundaries is its own scenario.  The quick tier thins out the interiors of the two regions in which every cut
+	// fails the same way (inside the encrypted static of message 2: ErrShortMessage after `e` was hashed; inside the
+	// cleartext payload of message 1: the payload no longer parses); the thorough tier tries every length.
 	for wi, w := range worlds {
 		for cipher := uint64(0); cipher < 2; cipher++ {
 			for _, targetInit := range []bool{true, false} {
-				chain := 12
-				if wi == 0 && cipher == 0 {
-					chain = 1
+				ref := wi == 0 && cipher == 0
+				skip := func(k, l int) bool {
+					if c.Tier != "quick" || (ref && targetInit) {
+						return false
+					}
+					if targetInit {
+						return k > w.dl+2 && k < 2*w.dl+14 && k%3 != 0
+					}
+					return k > 2*w.dl+4 && k < l-4 && k%6 != 0
 				}
 				for k := 0; ; {
-					cls, l := noiseC07Chain(c, cw, w, cipher, targetInit,
-						fmt.Sprintf("truncate-sweep/%s/cipher%d/%s", w.curve, cipher, nRole(targetInit)), k, chain)
-					k += len(cls)
-					if k >= l || len(cls) == 0 {
-						break
+					chain := 12
+					if ref && k >= w.dl-2 && k <= 2*w.dl+18 {
+						chain = 1
 					}
-					// quick tier, outside the reference world: inside the cleartext payload of message 1 every cut fails
-					// the same way (the payload no longer parses), so only every 6th length is tried there
-					if c.Tier == "quick" && chain > 1 && !targetInit && k > 2*w.dl+4 && k < l-4 {
-						k += 5
-						if k > l-4 {
-							k = l - 4
-						}
+					n, l := noiseC07Chain(c, cw, w, cipher, targetInit,
+						fmt.Sprintf("truncate-sweep/%s/cipher%d/%s", w.curve, cipher, nRole(targetInit)), k, chain, skip)
+					k = n
+					if k >= l {
+						break
 					}
 				}
 			}
@@ -796,11 +830,10 @@ func nRole(targetInit bool) string {
 	return "responder-msg1"
 }
 
-// truncations start, start+1, ... of the genuine message are delivered ahead of it, until `chain` of them were
-// rejected with the machine still usable, one marked it failed, or the whole message length is reached.
-// Returns the classes observed and the message length.
-func noiseC07Chain(c *hx.Ctx, cw *hx.CaseWriter, w *nWorld, cipher uint64, targetInit bool, kind string, start, chain int) ([]int, int) {
-	var cls []int
+// truncations start, start+1, ... (those not skipped) of the genuine message are delivered ahead of it, until `chain`
+// of them were rejected with the machine still usable, one marked it failed, or the whole message length is reached.
+// Returns the next length to try and the message length.
+func noiseC07Chain(c *hx.Ctx, cw *hx.CaseWriter, w *nWorld, cipher uint64, targetInit bool, kind string, start, chain int, skip func(k, l int) bool) (int, int) {
 	goods := []int{nA, nB}
 	idI, idR := w.ids[goods[c.Intn(2)]], w.ids[goods[c.Intn(2)]]
 	s := &nScript{w: w}
@@ -813,9 +846,13 @@ func noiseC07Chain(c *hx.Ctx, cw *hx.CaseWriter, w *nWorld, cipher uint64, targe
 		tgt, src = 0, 1
 	}
 	l := len(s.body(src))
-	for k := start; k < l && len(cls) < chain && usable; k++ {
+	k, fed := start, 0
+	for ; k < l && fed < chain && usable; k++ {
+		if skip(k, l) {
+			continue
+		}
 		o := s.deliver(tgt, s.wTrunc(src, k), "Noise_corr.TBad")
-		cls = append(cls, o.class)
+		fed++
 		if o.class != 0 {
 			usable = false
 		}
@@ -826,7 +863,7 @@ func noiseC07Chain(c *hx.Ctx, cw *hx.CaseWriter, w *nWorld, cipher uint64, targe
 	}
 	s.deliver(tgt, s.wGenuine(src), "Noise_corr.TNone")
 	s.emit(cw, kind, usable, nil)
-	return cls, l
+	return k, l
 }
 
 // a manipulated version of the message machine `src` produced
@@ -925,7 +962,7 @@ func noiseHonest(c *hx.Ctx, s *nScript, idI, idR *nIdent, vI, vR cert.Version, c
 }
 
 func runNoiseC06(c *hx.Ctx) {
-	cw := c.NewCaseWriter(nImports, "Noise_corr.ccase", "Noise_corr.check_c06", 60)
+	cw := c.NewCaseWriter(nImports, "Noise_corr.ccase", "Noise_corr.check_c06", 40)
 	worlds := []*nWorld{newNoiseWorld(cert.Curve_CURVE25519), newNoiseWorld(cert.Curve_P256)}
 	type vc struct {
 		id int
@@ -970,9 +1007,49 @@ func runNoiseC06(c *hx.Ctx) {
 
 // ---- C05 ---------------------------------------------------------------------------------------------------
 
+const nF27 = "ix-responder-unauthenticated-msg1"
+
+// emits the script for C05: always against what is proved (C5Strict); if a responder completed on a message 1 that no
+// initiator sent verbatim, additionally against the literal reading of the property (C5Literal), where it is the known
+// finding F27.  At most `*budget` such shadow cases are written.
+func noiseEmitC05(cw *hx.CaseWriter, s *nScript, kind string, nontrivial bool, budget *int) {
+	s.emitAs(cw, "Noise_corr.C5Strict", kind, nontrivial, nil)
+	if len(s.forged) > 0 && *budget > 0 {
+		*budget--
+		s.emitAs(cw, "Noise_corr.C5Literal", nF27, true, nil)
+	}
+}
+
 func runNoiseC05(c *hx.Ctx) {
-	cw := c.NewCaseWriter(nImports, "Noise_corr.ccase", "Noise_corr.check_c05", 60)
+	cw := c.NewCaseWriter(nImports, "Noise_corr.c05case", "Noise_corr.check_c05", 60)
 	worlds := []*nWorld{newNoiseWorld(cert.Curve_CURVE25519), newNoiseWorld(cert.Curve_P256)}
+	budget := 24
+	// 0. the witnesses of finding F27 first: a fresh responder completes "with A" on (a) A's genuine message 1 whose
+	// cleartext Time was altered by one bit, (b) A's message 1 carrying the payload of another session of A; A itself
+	// never completes (it refuses the answer).
+	for _, w := range worlds {
+		for variant := 0; variant < 2; variant++ {
+			s := &nScript{w: w}
+			s.ms = []*nMach{w.newMach(w.ids[nA], cert.Version2, true, 0, nNonZero(c), false), w.newMach(w.ids[nB], cert.Version2, false, 0, nNonZero(c), false)}
+			s.init(0)
+			var wr nWire
+			if variant == 0 {
+				wr = s.wRewrite(0, func(p *handshake.Payload) { p.Time ^= 1 << uint(c.Intn(20)) }, "time-bit-flipped")
+			} else {
+				s.ms = append(s.ms, w.newMach(w.ids[nA], cert.Version2, true, 0, nNonZero(c), false))
+				s.init(2)
+				_, sEnd, _ := s.regions(0)
+				wr = s.wSplice(0, 2, sEnd) // E and S of session 0, payload of session 2: needs describePay, so rebuild
+				b := append(append([]byte(nil), s.body(0)[:sEnd]...), s.body(2)[sEnd:]...)
+				wr = s.mkWire(0, b, nPieces(fOut(0, 0, sEnd), s.describePay(b[sEnd:])), "payload-of-another-session")
+			}
+			o := s.deliver(1, wr, "Noise_corr.TNone")
+			if o.hasOut {
+				s.deliverV(0, 1)
+			}
+			noiseEmitC05(cw, s, "witness/"+wr.desc, o.hasRes, &budget)
+		}
+	}
 	// 1. every identity against a good peer, in both roles, both curves
 	for _, w := range worlds {
 		for idn := range w.ids {
@@ -983,9 +1060,8 @@ func runNoiseC05(c *hx.Ctx) {
 				if !asInit {
 					a, b = w.ids[nB], id
 				}
-				i, r, ok := noiseHonest(c, s, a, b, a.def, b.def, 0)
-				_, _ = i, r
-				s.emit(cw, fmt.Sprintf("identity/%s/%s/asInitiator=%v", w.curve, id.name, asInit), ok, nil)
+				_, _, ok := noiseHonest(c, s, a, b, a.def, b.def, 0)
+				noiseEmitC05(cw, s, fmt.Sprintf("identity/%s/%s/asInitiator=%v", w.curve, id.name, asInit), ok, &budget)
 			}
 		}
 	}
@@ -1010,8 +1086,8 @@ func runNoiseC05(c *hx.Ctx) {
 		for k := 0; k < nsess; k++ {
 			idI, vI := pick()
 			idR, vR := pick()
-			ci, cr := uint64(c.Intn(2)), uint64(0)
-			cr = ci
+			ci := uint64(c.Intn(2))
+			cr := ci
 			if c.Chance(0.08) {
 				cr = 1 - ci // cipher suites that do not match
 			}
@@ -1027,7 +1103,6 @@ func runNoiseC05(c *hx.Ctx) {
 		for k := 0; k < nsess; k++ {
 			s.init(2 * k)
 		}
-		kinds := map[string]bool{}
 		nsteps := 2 + c.Intn(6)
 		for st := 0; st < nsteps; st++ {
 			// choose a machine that has produced a packet, and a recipient
@@ -1047,9 +1122,10 @@ func runNoiseC05(c *hx.Ctx) {
 				dst = c.Intn(len(s.ms))
 			}
 			var wr nWire
+			verbatim := false
 			switch r := c.Intn(20); {
 			case r < 9:
-				wr = s.wGenuine(src)
+				verbatim = true
 			case r < 11:
 				wr = s.wTrunc(src, c.Intn(len(s.body(src))+1))
 			case r < 13:
@@ -1064,20 +1140,27 @@ func runNoiseC05(c *hx.Ctx) {
 					if !s.isMsg1(src) && c.Chance(0.5) {
 						k = c.Intn(min(len(s.body(src)), len(s.body(o))))
 					}
-					wr = s.wSplice(src, o, k)
+					if s.isMsg1(src) && k == sEnd {
+						b := append(append([]byte(nil), s.body(src)[:sEnd]...), s.body(o)[sEnd:]...)
+						wr = s.mkWire(src, b, nPieces(fOut(src, 0, sEnd), s.describePay(b[sEnd:])), fmt.Sprintf("splice-payload(%d:%d)", src, o))
+					} else {
+						wr = s.wSplice(src, o, k)
+					}
 				} else {
-					wr = s.wGenuine(src)
+					verbatim = true
 				}
 			case r < 18 && s.isMsg1(src):
 				other := w.ids[c.Intn(len(w.ids))]
 				ci := other.creds[other.def]
-				switch c.Intn(5) {
+				switch c.Intn(6) {
 				case 0:
 					wr = s.wRewrite(src, func(p *handshake.Payload) { p.Cert = w.fullA }, "cert-with-public-key")
 				case 1:
 					wr = s.wRewrite(src, func(p *handshake.Payload) { p.CertVersion = 3 - p.CertVersion }, "wrong-cert-version")
 				case 2:
 					wr = s.wRewrite(src, func(p *handshake.Payload) { p.Cert = nil }, "no-cert")
+				case 3:
+					wr = s.wRewrite(src, func(p *handshake.Payload) { p.Time ^= 1 << uint(c.Intn(20)) }, "time-bit-flipped")
 				default:
 					wr = s.wRewrite(src, func(p *handshake.Payload) { p.Cert, p.CertVersion = ci.bytes, uint32(ci.ver) }, "swap-cert("+other.name+")")
 				}
@@ -1086,8 +1169,11 @@ func runNoiseC05(c *hx.Ctx) {
 			default:
 				wr = s.wShort(c, src)
 			}
-			kinds[strings.SplitN(wr.desc, "(", 2)[0]] = true
-			s.deliver(dst, wr, "Noise_corr.TNone")
+			if verbatim || wr.bytes == nil {
+				s.deliverV(dst, src)
+			} else {
+				s.deliver(dst, wr, "Noise_corr.TNone")
+			}
 		}
 		completed := false
 		for _, m := range s.ms {
@@ -1099,7 +1185,7 @@ func runNoiseC05(c *hx.Ctx) {
 		if completed {
 			kind = "adversary/some-completion"
 		}
-		s.emit(cw, kind, completed, nil)
+		noiseEmitC05(cw, s, kind, completed, &budget)
 	}
 	cw.Close("adversary script in which at least one machine completed")
 }
